@@ -312,6 +312,8 @@ class Model:
             def __init__(self):
                 self.cls = []
                 self.depth = 0
+                self.qual = []        # names of the enclosing functions
+                self.clsname = None   # class of the enclosing method
                 self.vocab = None     # reference-tree local names of the enclosing top-level function / method
 
             def visit_ClassDef(self, n):
@@ -326,6 +328,7 @@ class Model:
                 text = '\n'.join(lines[first - 1:n.end_lineno])
                 cls = self.cls[-1] if (self.cls and self.depth == 0) else None
                 if self.depth == 0:
+                    self.clsname = cls
                     self.vocab = locs.get(f'{m}::{cls + "." if cls else ""}{n.name}')
                 refsigs = rdefs.get(f'{m}::{cls + "." if cls else ""}{n.name}') if self.depth == 0 else None
                 vocab = self.vocab
@@ -336,10 +339,27 @@ class Model:
                     return hit
                 self.depth += 1
                 saved, self.cls = self.cls, []
+                self.qual.append(n.name)
                 self.generic_visit(n)
+                self.qual.pop()
                 self.cls = saved
                 self.depth -= 1
                 try:
+                    # local helper functions the reference tree does not have (plain nested `def` / `async def`, no decorator,
+                    # only ever called): their body is analysed where they are called, and the definition disappears
+                    outerq = f'{m}::{(self.clsname + ".") if self.clsname else ""}{".".join(self.qual + [n.name])}'
+                    local_h = {}
+                    for s_ in n.body:
+                        if isinstance(s_, (ast.FunctionDef, ast.AsyncFunctionDef)) and not s_.decorator_list and known and f'{outerq}.{s_.name}' not in known:
+                            kind_ = canon.helper_candidate(s_)
+                            if kind_ is not None and kind_ in ('function', 'afunction'):
+                                local_h[(None, s_.name)] = canon.Helper(copy.deepcopy(s_), kind_, None)
+                    if local_h:
+                        n = copy.deepcopy(n)
+                        canon.h1_inline(n, local_h, None)
+                        for (_c, nm_) in local_h:
+                            if not any(isinstance(x_, ast.Name) and x_.id == nm_ and isinstance(x_.ctx, ast.Load) for x_ in ast.walk(n)):
+                                n.body = [s_ for s_ in n.body if not (isinstance(s_, (ast.FunctionDef, ast.AsyncFunctionDef)) and s_.name == nm_)]
                     if helpers:
                         n = copy.deepcopy(n)
                         canon.h1_inline(n, {k: h for k, h in helpers.items() if h.node.name != n.name}, cls)
